@@ -373,6 +373,13 @@ func (ci *ConstructorInvoker) buildArguments(
 		if err != nil {
 			return nil, fmt.Errorf("failed to resolve parameter %d: %w", i, err)
 		}
+		if value == nil {
+			// A dependency that resolved to nil (an output its constructor left
+			// nil) is passed as the zero value of the parameter type, as a field
+			// of a parameter object would keep it
+			args[i] = reflect.Zero(param.Type)
+			continue
+		}
 		args[i] = reflect.ValueOf(value)
 	}
 
